@@ -296,6 +296,35 @@ def has_tail_trunc(job, fork_path):
     return False
 
 
+IO_ATTR = {"IdBeforeFile": ["C01", "C03", "C13"], "UnlinkAfterCommit": ["C01", "C04", "C13"],
+           "NextAboveIds": ["C13"], "NextDecreased": ["C13"], "AckSynced": ["C01"]}
+
+
+def io_order(io_path, wd, stats):
+    """Validate the recorded VFS/MetaStore call order against spec/WalIoTrace.tla (binding of WalImpl's ordering)."""
+    cfg = cfg_text(constants={"TraceFile": "io.ndjson"}, post="Accepted")
+    r = tlc("WalIoTrace", cfg, files={"io.ndjson": io_path}, workers=1, timeout=900, heap="8g")
+    if r.error or r.violated:
+        raise Inconclusive("WalIoTrace did not accept the trace format: %s %s\n%s" % (r.error, r.violated, r.out[-3000:]))
+    pl = tlc_payloads(r, "VIOL")
+    if len(pl) != 1:
+        raise Inconclusive("WalIoTrace printed no verdict\n" + r.out[-2000:])
+    stats["io_calls_validated"] = stats.get("io_calls_validated", 0) + pl[0]["nobs"]
+    stats["judge_states"] = stats.get("judge_states", 0) + r.generated
+    if not pl[0]["v"]:
+        return []
+    lines = open(io_path).read().splitlines()
+    out = []
+    for v in pl[0]["v"]:
+        i = v["line"] - 1
+        k = i
+        while k >= 0 and '"ev":"reset"' not in lines[k]:
+            k -= 1
+        path = json.loads(lines[k])["path"] if k >= 0 else "?"
+        out.append({"clause": v["clause"], "path": path, "event": json.loads(lines[i])})
+    return out
+
+
 class Engine:
     """One check run: collects stats, violations per property, evidence samples."""
 
@@ -322,6 +351,13 @@ class Engine:
             t0 = time.time()
             obs, io, st = run_jobs(jobs, self.wd, "%s%d" % (tag, lvl), need_io=True)
             t1 = time.time()
+            if lvl == 0:
+                for v in io_order(io, self.wd, self.stats):
+                    job = self.jobs_by_id.get(v["path"].split("/")[0])
+                    self.viols.append({"line": 0, "clause": v["clause"], "job": v["path"], "fork": None, "family": "crash",
+                                       "tag": None, "inflight": "none", "ncrash": 0,
+                                       "event": {"msg": "%s %s" % (v["event"].get("call"), v["event"].get("name"))},
+                                       "props": IO_ATTR.get(v["clause"], ["C01"]), "replay_job": prune_job(job, None) if job else {}})
             by = expand_images(io, self.wd, max_exh=max_exh, nrandom=nrandom, stats=self.stats)
             t2 = time.time()
             n = attach_forks(jobs, by, self.rng, per_run[min(lvl, len(per_run) - 1)],
